@@ -178,6 +178,11 @@ package hub
 //@   requires @HUBINV(h) && remoteService != nil
 //@   ensures [C11] F3-first: !(remoteService.ski in old(h.connections)) ==> result
 //@   ensures [C11] F3-survivor: remoteService.ski in old(h.connections) ==> result == ite(incomingRequest, remoteService.ski > h.localService.ski, h.localService.ski > remoteService.ski)
+// the connection that loses is closed at once, without the closing exchange: a graceful close reports its end only
+// 500 ms later, by which time the surviving connection may be set up - and the late 'disconnected' for the old one
+// would be the application's last word about a SKI that is connected
+//@   ensures [C11] F3-loser-closed: remoteService.ski in old(h.connections) && result ==> old(h.connections[remoteService.ski]).$closeCalls == old(h.connections[remoteService.ski].$closeCalls) + 1 && !old(h.connections[remoteService.ski]).$lastSafe
+//@   ensures [C11] F3-survivor-kept: remoteService.ski in old(h.connections) && !result ==> old(h.connections[remoteService.ski]).$closeCalls == old(h.connections[remoteService.ski].$closeCalls)
 //@   ensures @HUBINV(h)
 //@   modifies h.connections[remoteService.ski].$closeCalls, h.connections[remoteService.ski].$lastSafe, h.connections[remoteService.ski].$lastCode, h.connections[remoteService.ski].$lastReason
 //@ func (h *Hub).sendWSCloseMessage(conn) [C08]
